@@ -16,8 +16,9 @@ pub fn run(tier: Tier) -> i32 {
     let scratch = Scratch::new("c03");
     let keys_total = Mutex::new(0u64);
     let locale_sets: Vec<Vec<&str>> = match tier {
-        Tier::Quick => vec![vec!["en", "fr", "de"], vec!["de", "en", "fr"]],
-        Tier::Thorough => vec![vec!["en", "fr", "de"], vec!["en", "fr", "de", "it"], vec!["it", "de", "fr", "en"]],
+        // four locales are needed for a chain of two undefined locales ending on a non-default definer
+        Tier::Quick => vec![vec!["en", "fr", "de"], vec!["en", "fr", "de", "it"]],
+        Tier::Thorough => vec![vec!["en", "fr", "de"], vec!["en", "fr", "de", "it"], vec!["it", "de", "fr", "en"], vec!["en", "es", "pt", "pt-BR", "fr"]],
     };
     let mut jobs: Vec<(Project, u64, bool)> = vec![];
     for ls in &locale_sets {
